@@ -29,6 +29,8 @@ pub struct ExecKnobs {
     pub sched: SchedKnobs,
     pub net: NetKnobs,
     pub max_steps: usize,
+    /// record the task chosen at every scheduling decision (never serialised)
+    pub record_schedule: bool,
 }
 
 impl Default for ExecKnobs {
@@ -37,16 +39,24 @@ impl Default for ExecKnobs {
             sched: SchedKnobs::default(),
             net: NetKnobs::default(),
             max_steps: 400_000,
+            record_schedule: false,
         }
     }
 }
 
 impl ExecKnobs {
     pub fn to_json(&self) -> Value {
-        json!({
+        let mut v = json!({
             "stay_bias": self.sched.stay_bias, "early_coin": self.sched.early_coin, "stall_bound_us": self.sched.stall_bound_us,
             "max_chunk": self.net.max_chunk, "buffer_cap": self.net.buffer_cap, "max_steps": self.max_steps,
-        })
+        });
+        if let Some(s) = &self.sched.schedule {
+            // the minimised schedule: [[task id, consecutive decisions], ...]; decisions after its end follow
+            // the default policy (stay on the current task, else the lowest runnable id, clock at quiescence)
+            let segs: Vec<Value> = mos_simrt::sched::rle(s).iter().map(|(t, n)| json!([t, n])).collect();
+            v["schedule"] = Value::Array(segs);
+        }
+        v
     }
     pub fn from_json(v: &Value) -> Option<ExecKnobs> {
         Some(ExecKnobs {
@@ -54,12 +64,23 @@ impl ExecKnobs {
                 stay_bias: v.get("stay_bias")?.as_u64()? as u32,
                 early_coin: v.get("early_coin")?.as_u64()? as u32,
                 stall_bound_us: v.get("stall_bound_us")?.as_u64()?,
+                schedule: match v.get("schedule").and_then(|s| s.as_array()) {
+                    Some(a) => {
+                        let mut segs = Vec::new();
+                        for e in a {
+                            segs.push((e.get(0)?.as_u64()? as u32, e.get(1)?.as_u64()? as u32));
+                        }
+                        Some(Arc::new(mos_simrt::sched::un_rle(&segs)))
+                    }
+                    None => None,
+                },
             },
             net: NetKnobs {
                 max_chunk: v.get("max_chunk")?.as_u64()? as usize,
                 buffer_cap: v.get("buffer_cap")?.as_u64()? as usize,
             },
             max_steps: v.get("max_steps")?.as_u64()? as usize,
+            record_schedule: false,
         })
     }
 }
@@ -112,6 +133,8 @@ pub struct ExecOutcome<R> {
     pub probes: BTreeMap<&'static str, u64>,
     pub history: Vec<HistEv>,
     pub disk_log: Vec<String>,
+    /// task chosen at every decision, when `ExecKnobs::record_schedule` was set
+    pub recorded: Vec<u32>,
 }
 
 /// One simulated process run = one shuttle execution on a fresh OS thread.
@@ -141,6 +164,7 @@ pub fn run_execution<R: Send + 'static>(
         cfg.max_steps = shuttle::MaxSteps::FailAfter(knobs.max_steps);
         cfg.failure_persistence = shuttle::FailurePersistence::None;
         cfg.silence_warnings = true;
+        mos_simrt::sched::set_recording(knobs.record_schedule);
         let sched = SimScheduler::new(seed, knobs.sched.clone());
         let runner = shuttle::Runner::new(sched, cfg);
         clock::set_active(true);
@@ -187,7 +211,9 @@ pub fn run_execution<R: Send + 'static>(
             probes: probe::take(),
             history: HIST.with(|h| std::mem::take(&mut *h.borrow_mut())),
             disk_log: d.map(|d| d.log).unwrap_or_default(),
+            recorded: mos_simrt::sched::take_recording(),
         };
+        mos_simrt::sched::set_recording(false);
         // drop simulator objects that still exist (they must not outlive the thread's TLS)
         net::reset(NetKnobs::default());
         pipe::reset();
@@ -215,8 +241,102 @@ pub fn run_execution<R: Send + 'static>(
             probes: BTreeMap::new(),
             history: vec![],
             disk_log: vec![],
+            recorded: vec![],
         },
     }
+}
+
+/// Schedule minimisation. `run` executes a case with the given knobs and returns (violation
+/// signature if any, recorded schedule). The violating execution is recorded, replayed from the
+/// recording (must reproduce), then reduced while the same signature persists:
+///  1. shortest prefix of the recording after which the fair default policy may take over
+///     (binary search, the result is re-verified);
+///  2. ddmin over the run-length segments of that prefix: removing a segment removes a context
+///     switch (a preemption, or a task's whole turn); what no longer fits is skipped tolerantly
+///     by the replay (see `SchedKnobs::schedule`).
+/// At most `budget` executions. Returns the knobs carrying the minimised schedule and a
+/// description of what was achieved, or None when the recording does not reproduce (the caller
+/// keeps the seed-only replay file, which is exact by itself).
+pub fn minimise_schedule(
+    knobs: &ExecKnobs,
+    sig: &str,
+    budget: usize,
+    run: &dyn Fn(&ExecKnobs) -> (Option<String>, Vec<u32>, u64),
+) -> Option<(ExecKnobs, Value)> {
+    let mut used = 0usize;
+    let mut rec_knobs = knobs.clone();
+    rec_knobs.sched.schedule = None;
+    rec_knobs.record_schedule = true;
+    let (s0, recorded, switches_before) = run(&rec_knobs);
+    used += 1;
+    if s0.as_deref() != Some(sig) || recorded.is_empty() {
+        return None;
+    }
+    let with = |sch: &[u32]| -> ExecKnobs {
+        let mut k = knobs.clone();
+        k.record_schedule = false;
+        k.sched.schedule = Some(Arc::new(sch.to_vec()));
+        k
+    };
+    let mut test = |sch: &[u32], used: &mut usize| -> Option<u64> {
+        if *used >= budget {
+            return None;
+        }
+        *used += 1;
+        let (s, _, sw) = run(&with(sch));
+        if s.as_deref() == Some(sig) {
+            Some(sw)
+        } else {
+            None
+        }
+    };
+    let mut switches_after = test(&recorded, &mut used)?;
+    // 1. prefix
+    let (mut lo, mut hi) = (0usize, recorded.len());
+    while lo < hi {
+        let mid = lo + (hi - lo) / 2;
+        if test(&recorded[..mid], &mut used).is_some() {
+            hi = mid;
+        } else {
+            lo = mid + 1;
+        }
+    }
+    let mut best: Vec<u32> = recorded[..hi].to_vec();
+    match test(&best, &mut used) {
+        Some(sw) => switches_after = sw,
+        None => best = recorded.clone(),
+    }
+    // 2. segments
+    let segs = mos_simrt::sched::rle(&best);
+    if segs.len() >= 2 {
+        let kept = ddmin(segs, &mut |cand: &[(u32, u32)]| match test(&mos_simrt::sched::un_rle(cand), &mut used) {
+            Some(sw) => {
+                switches_after = sw;
+                true
+            }
+            None => false,
+        });
+        let cand = mos_simrt::sched::un_rle(&kept);
+        // ddmin's last accepted candidate is `kept`; verify once more outside the budget
+        let (s, _, sw) = run(&with(&cand));
+        if s.as_deref() == Some(sig) {
+            best = cand;
+            switches_after = sw;
+        } else {
+            let (_, _, sw) = run(&with(&best));
+            switches_after = sw;
+        }
+    }
+    let info = json!({
+        "recorded_decisions": recorded.len(),
+        "recorded_context_switches": switches_before,
+        "minimised_decisions": best.len(),
+        "minimised_segments": mos_simrt::sched::rle(&best).len(),
+        "context_switches_of_the_minimised_execution": switches_after,
+        "executions_spent": used,
+        "how_to_read": "knobs.schedule = [[task id, consecutive decisions], ...]; after its end (and where an entry cannot be followed) the scheduler stays on the current task, moving to the next runnable task id when it yields or after 64 decisions; the clock daemon fires at quiescence",
+    });
+    Some((with(&best), info))
 }
 
 /// shuttle reports every panicking execution (including the simulated process
